@@ -179,6 +179,8 @@ func c17Setup(w *world.World) {
 		bD("_id", int32(1), "a", bD("b", bson.A{int32(1), int32(2)}), "tags", bson.A{"x", "y"}, "blob", primitive.Binary{Data: []byte{1, 2, 3}}, "n", int32(1)),
 		bD("_id", bD("k", int32(1), "l", bson.A{int32(7)}), "a", bD("b", bson.A{int32(3)}), "tags", bson.A{"y"}, "n", int32(2)),
 		bD("_id", primitive.Binary{Data: []byte{9, 9}}, "a", bD("b", bson.A{}), "tags", bson.A{bD("t", bson.A{int32(1)})}, "n", int32(3)),
+		// arrays directly inside arrays
+		bD("_id", int32(4), "grid", bson.A{bson.A{int32(1), int32(2)}, bson.A{int32(3), bson.A{int32(4)}}}, "n", int32(4)),
 	}
 	if _, err := c.InsertMany(w.Ctx, docs); err != nil {
 		panic(err)
@@ -504,7 +506,46 @@ func c17Calls() []c17Call {
 		}
 		return out
 	})
-	// ---- the engine-level API below the driver layer: listings are built for the caller
+	add("Find / FindOne with index paths into arrays of arrays (read only)", func() []interface{} {
+		return []interface{}{bD("_id", i(4)), bD("grid.0.1", i(0)), bD("grid.1", bD("$slice", i(1))), bD("grid.1.1.0", i(0), "n", i(0))}
+	}, func(w *world.World, a []interface{}) []interface{} {
+		var out []interface{}
+		for _, proj := range a[1:] {
+			var one bson.D
+			if err := coll(w).FindOne(w.Ctx, a[0], options.FindOne().SetProjection(proj)).Decode(&one); err != nil {
+				panic(err)
+			}
+			out = append(out, &one)
+		}
+		return out
+	})
+	// ---- the engine-level API below the driver layer: inserted documents and replacements are copied in (update
+	// documents are not: the copy barrier for those is the driver layer's Transform, and the property claims no more)
+	add("Transaction.Insert / Replace with caller-owned documents holding arrays of arrays", func() []interface{} {
+		return []interface{}{
+			&bson.D{{Key: "_id", Value: i(70)}, {Key: "grid", Value: bson.A{bson.A{i(1), i(2)}, bson.A{bD("x", bson.A{i(3)})}}}},
+			&bson.D{{Key: "grid", Value: bson.A{bson.A{i(5)}, bson.A{bson.A{i(6)}}}}, {Key: "n", Value: i(1)}},
+		}
+	}, func(w *world.World, a []interface{}) []interface{} {
+		txn, err := w.Engine.Begin(w.Ctx, true)
+		if err != nil {
+			panic(err)
+		}
+		defer w.Engine.Abort(txn)
+		h := lungo.Handle{"d", "c"}
+		if _, err := txn.Insert(h, []*bson.D{a[0].(*bson.D)}, true); err != nil {
+			panic(err)
+		}
+		q1 := bD("_id", i(1))
+		if _, err := txn.Replace(h, &q1, nil, a[1].(*bson.D), false); err != nil {
+			panic(err)
+		}
+		if err := w.Engine.Commit(txn); err != nil {
+			panic(err)
+		}
+		return nil
+	})
+	// ---- listings are built for the caller
 	add("Transaction.ListIndexes / ListCollections / ListDatabases + Index.Config (read only)", func() []interface{} { return nil }, func(w *world.World, a []interface{}) []interface{} {
 		txn, err := w.Engine.Begin(w.Ctx, false)
 		if err != nil {
